@@ -2,6 +2,7 @@ pub mod c01;
 pub mod c02;
 pub mod c06;
 pub mod c08;
+pub mod c10n;
 pub mod c17;
 pub mod c20;
 pub mod c19;
